@@ -489,6 +489,7 @@ def main(tier):
         need = {"P.generate_ast", "P.parse_number", "P.convert_token_to_node", "P.function_static_arguments", "P.get_enclosed_elements_with_impl_mult", "P.check_paren"}
         if any(a == "var" and ev in evs for (a, evs) in spec.FUNCTIONS.values()):
             need |= {"P.find_item_list", "P.function_arguments"}
+        need = {n_ for n_ in need if m.tb.fn("::parser::Parser::" + n_[2:]) is not None or n_ in ("P.generate_ast", "P.parse_number", "P.convert_token_to_node")}
         run.ob(need <= MC, "must-consume|%s" % ev, "C02 every non-error path through the parsing functions consumes at least one token", where(m, "::parser::Parser::parse_number"),
                "not token-consuming on every path: %s" % sorted(need - MC), sample={"evaluator": ev, "must_consume": sorted(MC)})
         # get_next_token consumes one character unless at end of input; Tokenizer::next starts with expr.next()
